@@ -83,7 +83,7 @@ func runBatch(tier string, seed int64) {
 	// sentence, so every caller normally contributes one event per entropy.
 	emit(Event{"op": "Cut", "source": curSource, "batch_seed": seed, "batch_tier": tier})
 	const SG = 32
-	reps := map[string]int{"quick": 1500, "thorough": 20000}[tier]
+	reps := map[string]int{"quick": 5000, "thorough": 40000}[tier]
 	type obs struct {
 		out string
 		err error
@@ -99,7 +99,8 @@ func runBatch(tier string, seed int64) {
 			ents[gi] = append(ents[gi], r.bytes(sizes[r.intn(5)]))
 		}
 	}
-	stop := gcStorm()
+	stop, stop2 := gcStorm(), gcStorm()
+	defer stop2()
 	var wg sync.WaitGroup
 	for gi := 0; gi < SG; gi++ {
 		wg.Add(1)
